@@ -1,0 +1,114 @@
+//go:build verif
+
+package face
+
+import (
+	enc "github.com/named-data/ndnd/std/encoding"
+)
+
+var _ = enc.TypeName
+
+// ---------------------------------------------------------------------------------------
+// stream framing, application side (C11): (*StreamFace).Run reads T, L, then exactly L bytes
+// ---------------------------------------------------------------------------------------
+//
+// Ghost model: std/encoding/zz_verif_stream.go (the byte stream behind the connection, the position of the connection,
+// the live bufio.Reader and its logical position); assumed contracts of bufio.NewReader and (*bufio.Reader).ReadByte/Read:
+// /verif/gcv/deps/bufio.contract; of io.ReadFull on a *bufio.Reader: below (trusted).
+
+// verifC11AppK: stream offset of the first byte not yet handed to onPkt (the delivery boundary). It is advanced only by
+// the environment contract of onPkt, by exactly the size of the block that starts there.
+var verifC11AppK int
+
+// enc.ReadTLNum and io.ReadFull as this package uses them: on the live bufio.Reader of the connection.
+//
+// The first block is this package's model of enc.ReadTLNum. It is NOT an assumption: gcv verifies the body of
+// ReadTLNum against it (`gcv funcs -ctx github.com/named-data/ndnd/std/engine/face`, props: "ctx"), with
+// (*bufio.Reader).ReadByte as the only assumed contract. ReadTLNum's own contract in std/encoding (readers of that
+// package) is untouched. The `assume` is the typing fact of the ghost symbol for the nine bytes
+// ReadTLNum can read (a byte is at most 255).
+//
+//@ func github.com/named-data/ndnd/std/encoding.ReadTLNum
+//@   dyn r in {*bufio.Reader}
+//@   requires enc.specStrLive(r) && enc.specStrInv(enc.ghostStrPos, enc.ghostStrConn)
+//@   assume enc.specStrRange9(enc.ghostStrPos)
+//@   modifies enc.ghostStrPos, enc.ghostStrConn
+//@   ensures [stream] err == nil ==> enc.ghostStrPos == old(enc.ghostStrPos)+enc.specStrNumSize(old(enc.ghostStrPos)) && uint64(val) == enc.specStrNumVal(old(enc.ghostStrPos))
+//@   ensures [stream-inv] enc.specStrInv(enc.ghostStrPos, enc.ghostStrConn)
+//@   loop 1 invariant 0 <= i && i <= l && l <= 8 && err == nil
+//@   loop 1 invariant [stream] enc.specStrInv(enc.ghostStrPos, enc.ghostStrConn) && enc.ghostStrPos == old(enc.ghostStrPos)+1+i
+//@   loop 1 invariant [stream-val] uint64(val) == enc.specStrBE(old(enc.ghostStrPos)+1, i)
+
+// io.ReadFull on the live bufio.Reader (A-DEP, assumed): "ReadFull reads exactly len(buf) bytes from r into buf. It
+// returns the number of bytes copied and an error if fewer bytes were read": the n bytes copied are the next n bytes of
+// the reader's logical stream; nothing outside buf[0:len(buf)] is written. (The dependency contract of io.ReadFull in
+// /verif/gcv/deps/stdlib.contract speaks about the readers of std/encoding and stays as it is for every other package.)
+//
+//@ func io.ReadFull
+//@   trusted
+//@   requires enc.specStrLive(r) && enc.specStrInv(enc.ghostStrPos, enc.ghostStrConn)
+//@   modifies buf[*], enc.ghostStrPos, enc.ghostStrConn
+//@   ensures 0 <= n && n <= len(buf) && (err == nil ==> n == len(buf))
+//@   ensures enc.specStrInv(enc.ghostStrPos, enc.ghostStrConn) && enc.ghostStrPos == old(enc.ghostStrPos)+n
+//@   ensures enc.specStrHolds(buf, 0, n, old(enc.ghostStrPos)) && unchangedExcept(buf, 0, len(buf))
+
+// Property C11 for the application side: every block of the stream is handed to onPkt exactly once, byte-identical and
+// in order, however the connection chunks the bytes and however much the bufio.Reader reads ahead.
+//
+// How the clauses say it:
+//   - `call onPkt requires`: what is handed up is a fresh BufferReader at position 0 over a buffer that has exactly the
+//     size of the block that starts at the delivery boundary verifC11AppK (not split, not merged, none skipped) and is
+//     byte-identical to the stream there (specStrHolds), header included: the header is REBUILT from the decoded T and
+//     L, which reproduces the bytes read only because T and L are in shortest form (specStrBlockOK; lemmaStrNumBytes).
+//     `call onPkt ensures` moves the boundary past the block (none duplicated).
+//   - loop invariant [pos]: at every loop head the logical position of the reader equals the delivery boundary: no
+//     byte has been consumed that was not delivered as part of a complete block (none lost), and the next T is read
+//     at a block boundary ([boundary]). This is where ONE reader for the whole loop matters: a new bufio.Reader per
+//     iteration starts at the connection's position, i.e. after the bytes its predecessor had read ahead, and [pos]
+//     is not preserved.
+//   - `ensures`: on return the delivery boundary is a block boundary of the stream (only whole blocks were delivered).
+//
+// Hypotheses (all listed in the evidence as environment contracts / requires):
+//   - the stream is a concatenation of well-formed blocks (T and L in shortest form, T within 32 bits as the NDN packet
+//     format specifies), each no larger than the maximum packet size (requires
+//     specStrWFAt at the start; `call onPkt ensures specStrWFAt` supplies the fact at the next boundary, as in the
+//     forwarder-side model), and Run starts at a block boundary with a connection nobody has read ahead of;
+//   - onError is called with a non-nil error only (an OBLIGATION) and returns a non-nil error, i.e. the face stops at
+//     the first read error, which is what the only implementation (std/engine/basic.(*Engine).onError) does. If it
+//     returned nil the loop would go on with a partially read header (not covered: outside C11's hypothesis);
+//   - the callbacks do not read from the connection (they leave the stream positions alone);
+//   - atomic.Bool.Load/Store: effect-free, arbitrary result (sequential view).
+//
+//@ func (*StreamFace).Run
+//@   option binder-range
+//@   opaque enc.specStrNumVal
+//@   requires f.onPkt != nil && f.onError != nil
+//@   requires verifC11AppK == enc.ghostStrConn && 0 <= verifC11AppK && enc.specStrInv(enc.ghostStrConn, enc.ghostStrConn)
+//@   requires enc.specStrStart(verifC11AppK) && enc.specStrWFAt(verifC11AppK)
+//@   call onError requires err != nil
+//@   call onError ensures result != nil && enc.ghostStrPos == old(enc.ghostStrPos) && enc.ghostStrConn == old(enc.ghostStrConn)
+//@   call onPkt requires typeIs(r, "*enc.BufferReader") && r.(*enc.BufferReader).pos == 0 && fresh(r.(*enc.BufferReader))
+//@   call onPkt requires enc.specStrStart(verifC11AppK) && len(r.(*enc.BufferReader).buf) == enc.specStrBlockSize(verifC11AppK)
+//@   call onPkt requires enc.specStrHolds(r.(*enc.BufferReader).buf, 0, len(r.(*enc.BufferReader).buf), verifC11AppK)
+//@   call onPkt modifies verifC11AppK, r.(*enc.BufferReader).pos
+//@   call onPkt ensures verifC11AppK == old(verifC11AppK)+enc.specStrBlockSize(old(verifC11AppK)) && enc.specStrWFAt(verifC11AppK)
+//@   call onPkt ensures enc.ghostStrPos == old(enc.ghostStrPos) && enc.ghostStrConn == old(enc.ghostStrConn)
+//@   modifies f.conn, verifC11AppK, enc.verifStrRd
+//@   ensures enc.specStrStart(verifC11AppK)
+//@   assert before ReadTLNum@2 uint64(t) == enc.specStrNumVal(verifC11AppK) && enc.ghostStrPos == verifC11AppK+enc.specStrTSize(verifC11AppK)
+//@   assert before EncodingLength@1 uint64(l) == enc.specStrLength(verifC11AppK) && enc.ghostStrPos == verifC11AppK+enc.specStrTSize(verifC11AppK)+enc.specStrLSize(verifC11AppK)
+//@   assert before EncodingLength@1 verifC11AppK < enc.specStrLen(0) && enc.specStrBlockOK(verifC11AppK)
+//@   assert before NewBufferReader@1 l0 == enc.specStrTSize(verifC11AppK) && l1 == enc.specStrLSize(verifC11AppK) && len(buf) == enc.specStrBlockSize(verifC11AppK) && fresh(buf)
+//@   assert before NewBufferReader@1 enc.ghostStrPos == verifC11AppK+enc.specStrBlockSize(verifC11AppK) && enc.specStrInv(enc.ghostStrPos, enc.ghostStrConn)
+//@   assert before NewBufferReader@1 enc.specTLSize(buf, 0) == l0 && enc.specTLVal(buf, 0) == uint64(t)
+//@   assert before NewBufferReader@1 enc.specTLSize(buf, l0) == l1 && enc.specTLVal(buf, l0) == uint64(l)
+//@   assert before NewBufferReader@1 uses enc.lemmaStrNumBytes(buf, 0, verifC11AppK) enc.specStrEq9(buf, 0, verifC11AppK, l0)
+//@   assert before NewBufferReader@1 uses enc.lemmaStrEq9Holds(buf, 0, verifC11AppK, l0, verifC11AppK) enc.specStrHolds(buf, 0, l0, verifC11AppK)
+//@   assert before NewBufferReader@1 uses enc.lemmaStrNumBytes(buf, l0, verifC11AppK+l0) enc.specStrEq9(buf, l0, verifC11AppK+l0, l1)
+//@   assert before NewBufferReader@1 uses enc.lemmaStrEq9Holds(buf, l0, verifC11AppK+l0, l1, verifC11AppK) enc.specStrHolds(buf, l0, l0+l1, verifC11AppK)
+//@   assert before NewBufferReader@1 enc.specStrHolds(buf, 0, l0+l1, verifC11AppK)
+//@   assert before NewBufferReader@1 enc.specStrHolds(buf, l0+l1, len(buf), verifC11AppK)
+//@   assert before NewBufferReader@1 enc.specStrHolds(buf, 0, len(buf), verifC11AppK)
+//@   loop 1 invariant [pos] enc.ghostStrPos == verifC11AppK && enc.specStrInv(enc.ghostStrPos, enc.ghostStrConn)
+//@   loop 1 invariant [boundary] enc.specStrStart(verifC11AppK)
+//@   loop 1 invariant [wf] enc.specStrWFAt(verifC11AppK)
